@@ -457,6 +457,8 @@ BUILTINS: dict = {}
 
 
 def builtin(eng, name):
+    if name in TYPE_NAMES:
+        return STypeName(name)
     if name in BUILTINS:
         return SBuiltin(name, BUILTINS[name])
     if name in ("True", "False", "None"):
@@ -1089,9 +1091,19 @@ def value_method(eng, st, v, attr):
         table = {}
     elif isinstance(v, SEnum):
         table = {}
+    from .engine import SConstMap
+    if isinstance(v, SConstMap):
+        table = CONSTMAP_METHODS
     if table is not None and attr in table:
         return SBuiltin(attr, table[attr], self_val=v)
     return None
+
+
+CONSTMAP_METHODS = {
+    "items": lambda eng, st, a, k: [(st, STuple([STuple([x, y]) for x, y in a[0].items]))],
+    "keys": lambda eng, st, a, k: [(st, STuple([x for x, _ in a[0].items]))],
+    "values": lambda eng, st, a, k: [(st, STuple([y for _, y in a[0].items]))],
+}
 
 
 def m_dict_get(eng, st, args, kw):
@@ -1777,7 +1789,14 @@ def spec_owner_of(eng, node, st, fi):
     return [(s, SAny(s.read_field(v.t, f"__owner_{f}"), ANY))]
 
 
+def spec_isascii(eng, node, st, fi):
+    from . import bytesalg
+    (s, v), = eng.ev(node.args[0], st, fi)
+    return [(s, SBool(bytesalg.isascii(v.t)))]
+
+
 SPEC_FUNCS = {
+    "isascii": spec_isascii,
     "owner_of": spec_owner_of,
     "key_of": spec_key_of,
     "held": spec_held,
